@@ -493,6 +493,9 @@ Definition eng_token (inp impl : node) : verdict :=
       let '(c06a, c10a) := judge (ob 0%nat) (ob 1%nat) (ob 2%nat) rg rd ri in
       let '(c06b, c10b) := if lenient then judge (ob 4%nat) (ob 5%nat) (ob 6%nat) rg0 rd0 ri0 else (true, true) in
       {| model_obs := m; violated := (if c06a && c06b then [] else [lit "C06"]) ++ (if c10a && c10b then [] else [lit "C10"]) |}
+  (* a sequence of constructor calls sharing a caller's value: the observation is what the caller asked for *)
+  | List [Str op; List [want]] =>
+      {| model_obs := want; violated := if node_eqb impl want then [] else [lit "C10"] |}
   (* a Go number offered as an argument / metadata value: stored exactly or rejected *)
   | List [Str op; Int v] =>
       let m := if in53 v then List [Str (lit "ok"); Int v] else List [Str (lit "err")] in
@@ -734,8 +737,12 @@ Definition eng_chain (inp impl : node) : verdict :=
             match args, load ld (i_prf i) with
             | Some a, Some ds =>
                 let valid_cmds := validb (i_cmd i) && forallb (fun d => validb (d_cmd d)) ds in
-                let far := clear_of 60000000000 now (i_exp i) &&
-                           forallb (fun d => clear_of 60000000000 now (d_nbf d) && clear_of 60000000000 now (d_exp d)) ds in
+                (* bounds are compared with the wall clock of the check: the Spec clauses about time bind only when
+                   every bound is clear of that instant by the slack (60 s; none for the cases timed against the
+                   clock, whose sign is certain by construction) *)
+                let slack := if str_eqb op (lit "execclock") then 0%Z else 60000000000%Z in
+                let far := clear_of slack now (i_exp i) &&
+                           forallb (fun d => clear_of slack now (d_nbf d) && clear_of slack now (d_exp d)) ds in
                 let p1 := principals_ok i ds in
                 let p2 := negb valid_cmds || commands_ok i ds in
                 let p3 := policies_ok a ds in
